@@ -12,6 +12,7 @@ META = {
 }
 
 ADDR_BYTES_Q = "{0, 1, 9, 10, 15, 16, 99, 100, 171, 255}"
+ADDR_MBYTES_Q = "{0, 1, 10, 100, 171, 255}"
 ADDR_BYTES_T = "{0, 1, 2, 9, 10, 15, 16, 19, 99, 100, 127, 128, 171, 199, 200, 255}"
 
 
@@ -108,10 +109,10 @@ def run(ctx):
 
     # 1+2. MC lemmas and generation in the same exhaustive runs: each state is
     # one address / one name; an invariant failure is a spec error (exit 2).
-    write_cfg(d / "Addr_run.cfg", "Spec", {"Bytes": ADDR_BYTES_Q if q else ADDR_BYTES_T, "MBytes": ADDR_BYTES_Q, "Fills": "{0, 171}"},
-              invariants=["RoundTripOK", "VariantsOK", "MappedIsV4", "Emit"])
+    write_cfg(d / "Addr_run.cfg", "Spec", {"Bytes": ADDR_BYTES_Q if q else ADDR_BYTES_T, "MBytes": ADDR_MBYTES_Q if q else ADDR_BYTES_Q, "Fills": "{0, 171}"},
+              invariants=["RoundTripOK", "MappedIsV4", "GenOK"])
     w = share(5)
-    jobs, dirs = names_jobs(ctx, d, ctx.tier, False, ["Lemmas", "Emit"], w)
+    jobs, dirs = names_jobs(ctx, d, ctx.tier, False, ["GenOK"], w)
     jobs.append(dict(spec_dir=d, module="ArpaAddr", cfg="Addr_run.cfg", workers=w, label="addr-mc-gen", timeout=1500))
     # case / trailing-dot invariance of the decoders (pure model checking, smaller family)
     vjobs, _ = names_jobs(ctx, d, "mini" if q else "quick", True, ["Variants"], w, tag="mcv")
